@@ -19,6 +19,7 @@ from typing import Dict, Set
 
 from .file_manager import FileManager
 from .metadata_manager import MetadataManager
+from .storage_backend import LocalStorageBackend
 
 logger = logging.getLogger(__name__)
 
@@ -264,7 +265,28 @@ class GarbageCollector:
         return deleted_count
 
     def _normalize_path(self, path: str) -> str:
-        """Normalize path to be relative to table root and strip leading slashes."""
-        if path.startswith(self.table_path):
-            path = path[len(self.table_path):]
+        """Table-relative form of a manifest, marker or listing path.
+
+        Every such path is table-relative - 'data/x' or Iceberg-style
+        '/data/x' - exactly as the read path interprets it. Only a TRUE
+        absolute path under an absolute table root (as given, or canonical)
+        has the root removed. The table location must never be stripped as a
+        plain string prefix: for a table located at 'd' or 'data' that turned
+        the listed 'data/x' into 'ata/x' while the manifest's '/data/x' stayed
+        'data/x', so every live data file looked like an orphan and was
+        deleted (and 'm' / 'metadata' made every collection abort).
+        """
+        if path.startswith("/"):
+            parts = path.split("/")
+            first = parts[1] if len(parts) > 1 else ""
+            if first not in ("data", "metadata"):
+                roots = [self.table_path]
+                if isinstance(self.storage, LocalStorageBackend):
+                    roots.append(self.storage._real_base_path())
+                for root in roots:
+                    if not root.startswith("/"):
+                        continue
+                    prefix = root.rstrip("/") + "/"
+                    if path.startswith(prefix):
+                        return path[len(prefix):].lstrip("/")
         return path.lstrip("/")
